@@ -84,26 +84,28 @@ Qed.
 
 (* ---- batch rules ---- *)
 Theorem batch_limit_exact lm s c reqs :
+  c_failure c = None ->
   forallb wreq_ok (flat_map snd reqs) = true ->
   (25 <? List.length (flat_map snd reqs) = true -> snd (batch_write lm s c reqs) = err_obs Validation) /\
   (25 <? List.length (flat_map snd reqs) = false ->
    snd (batch_write lm s c reqs) = err_obs Validation -> False \/
-   (match c_failure c with Some _ => [] | None => flat_map (prevalidate_table c) reqs end) <> [] \/
+   flat_map (prevalidate_table c) reqs <> [] \/
    exists c' un o, batch_write_tables lm s c reqs [] = (c', un, Some o)).
 Proof.
-  intros Hok. unfold batch_write. rewrite Hok. cbn [negb].
+  intros Hf Hok. unfold batch_write. rewrite Hf, Hok. cbn [negb andb].
   change batch_limit with 25. split.
   - intros ->. reflexivity.
   - intros ->. intros H.
-    destruct (match c_failure c with Some _ => [] | None => flat_map (prevalidate_table c) reqs end) eqn:E.
+    destruct (flat_map (prevalidate_table c) reqs) eqn:E.
     + destruct (batch_write_tables lm s c reqs []) as [[c' un] [o|]] eqn:B; [right; right; eauto|].
       cbn in H. discriminate.
     + right. left. discriminate.
 Qed.
 
 Theorem write_request_shape lm s c reqs :
+  c_failure c = None ->
   forallb wreq_ok (flat_map snd reqs) = false -> batch_write lm s c reqs = (c, err_obs Validation).
-Proof. intros H. unfold batch_write. now rewrite H. Qed.
+Proof. intros Hf H. unfold batch_write. now rewrite Hf, H. Qed.
 
 (* ---- expression attribute names and values ---- *)
 Theorem unused_name_rejected names vals exprs n :
@@ -123,4 +125,31 @@ Proof.
   { apply not_true_is_false. intros Ht. rewrite forallb_forall in Ht. apply Ht in Hin. congruence. }
   destruct (trim (join (bs " ") exprs)); destruct names; try (inversion Hin; fail); destruct vals; cbn in *;
     rewrite ?F, ?andb_false_r; auto.
+Qed.
+
+(* ---- placeholders that were never supplied, reserved words in any position (fixes 1740da6, fb4521f) ---- *)
+Theorem undefined_name_rejected names vals exprs :
+  undefined_name_in (trim (join (bs " ") exprs)) names = true -> validate_expr_attrs names vals exprs = false.
+Proof.
+  intros H. unfold validate_expr_attrs. rewrite H.
+  destruct (trim (join (bs " ") exprs)) eqn:G.
+  - vm_compute in H. discriminate.
+  - cbn [negb]. now rewrite andb_false_r, andb_false_l.
+Qed.
+
+Theorem reserved_word_rejected names vals exprs e :
+  In e exprs -> reserved_word_in e = true -> trim (join (bs " ") exprs) <> [] -> validate_expr_attrs names vals exprs = false.
+Proof.
+  intros Hin Hr Hg. unfold validate_expr_attrs.
+  assert (existsb reserved_word_in exprs = true) as -> by (apply existsb_exists; eauto).
+  destruct (trim (join (bs " ") exprs)); [congruence|]. cbn [negb]. now rewrite andb_false_r.
+Qed.
+
+(* a reserved word is found wherever it stands as a name: any identifier token that is not followed by "(" *)
+Theorem reserved_in_tokens_spec pre a b post :
+  ty a = IDENT -> ty b <> LPAREN -> is_reserved (lit a) = true -> reserved_in_tokens (pre ++ a :: b :: post) = true.
+Proof.
+  intros Ha Hb Hr. induction pre as [|x pre IH]; cbn [app reserved_in_tokens].
+  - rewrite Ha, Hr. cbn. destruct (tt_beq (ty b) LPAREN) eqn:E; [apply internal_tt_dec_bl in E; congruence|reflexivity].
+  - destruct (pre ++ a :: b :: post) eqn:E; [destruct pre; discriminate|]. rewrite IH. apply orb_true_r.
 Qed.
